@@ -156,6 +156,8 @@ def match_finding(findings, prop, clause, task, result):
         sig = f.get("signature", {})
         facts = dict(task.get("facts", {}))
         facts["scen"] = task.get("scen")
+        # (a fact of the execution itself: did it end with threads blocked on locks?)
+        facts["blocked_on_locks"] = any(b[1] == "acquire" for b in (result.get("blocked") or []))
         ok = True
         for k, v in sig.items():
             fv = facts.get(k)
